@@ -40,6 +40,9 @@ C02End(g, e) ==
     IN (IF missing = {} THEN {}
         ELSE IF told THEN {"discovery-incomplete:member-was-told-but-is-not-listed"}
         ELSE IF pending THEN {"discovery-incomplete:dissemination-still-pending-at-the-bound"}
+        \* the packet size feeds the whole cluster, yet some Feed of the run listed fewer members than its sender
+        \* had: the joiner was never told about them (distinct from the epidemic dying out by itself)
+        ELSE IF g.feedshort THEN {"discovery-incomplete:a-Feed-omitted-members-although-the-packet-feeds-the-whole-cluster"}
         ELSE {"discovery-incomplete:epidemic-extinct-before-reaching-everyone"})
        \cup Vc(extra = {}, "lists-an-identity-that-is-not-a-live-member")
 
